@@ -48,7 +48,7 @@ fn registry(id: &str) -> Option<PropDef> {
         },
         "C04" => PropDef {
             level: "exploration",
-            subs: vec![random::<c02::IndexAddresses>(), random::<c02::IndexLarge>(), random::<huge::HugeIndex>()],
+            subs: vec![random::<c02::IndexAddresses>(), random::<c02::IndexLarge>(), random::<c02::IndexBufio>(), random::<huge::HugeIndex>()],
             assumptions: vec!["record offsets come from the independent strict decoder"],
         },
         "C03" => PropDef {
